@@ -88,7 +88,17 @@ class DateTime:
             raise ValueError("nanosecond must be in 0..999_999_999", nanosecond)
 
         return DateTime(
-            int(datetime.datetime(year, month, day, hour, minute, second).timestamp())
+            int(
+                datetime.datetime(
+                    year,
+                    month,
+                    day,
+                    hour,
+                    minute,
+                    second,
+                    tzinfo=datetime.timezone.utc,
+                ).timestamp()
+            )
             * 1_000_000_000
             + nanosecond
         )
